@@ -82,3 +82,125 @@ pub mod nix_shim {
         }
     }
 }
+
+/// Stand-in for `std::sync::atomic::AtomicI32` in unixfd.rs (feature `verif_hooks` only): the
+/// same operations on a real `AtomicI32`, but every access to the shared cell is itself a
+/// scheduling point, named after the operation (and marked when the ordering is not `SeqCst`).
+/// A test controller can therefore stop a thread directly in front of *every* shared-memory
+/// access, so a read-modify-write that is not one atomic operation (a `load` followed by a
+/// `store`, a weak compare-exchange, a relaxed ordering) shows up as a different sequence of
+/// operations and can be interleaved with other threads.
+pub mod atomic_shim {
+    use std::sync::atomic::Ordering;
+
+    fn name(seqcst: &'static str, other: &'static str, o: Ordering) -> &'static str {
+        if o == Ordering::SeqCst {
+            seqcst
+        } else {
+            other
+        }
+    }
+    fn name2(seqcst: &'static str, other: &'static str, a: Ordering, b: Ordering) -> &'static str {
+        if a == Ordering::SeqCst && b == Ordering::SeqCst {
+            seqcst
+        } else {
+            other
+        }
+    }
+
+    pub struct AtomicI32(std::sync::atomic::AtomicI32);
+
+    impl std::fmt::Debug for AtomicI32 {
+        fn fmt(&self, f: &mut std::fmt::Formatter<'_>) -> std::fmt::Result {
+            // formatting is not an access the protocol makes: no point
+            std::fmt::Debug::fmt(&self.0, f)
+        }
+    }
+
+    macro_rules! fetch_op {
+        ($f:ident, $n:literal, $nw:literal) => {
+            pub fn $f(&self, v: i32, o: Ordering) -> i32 {
+                super::point(name($n, $nw, o));
+                self.0.$f(v, o)
+            }
+        };
+    }
+
+    impl AtomicI32 {
+        pub const fn new(v: i32) -> Self {
+            AtomicI32(std::sync::atomic::AtomicI32::new(v))
+        }
+        /// exclusive access (`&mut self`): not a shared-memory access, no point
+        pub fn get_mut(&mut self) -> &mut i32 {
+            self.0.get_mut()
+        }
+        pub fn into_inner(self) -> i32 {
+            self.0.into_inner()
+        }
+        pub fn load(&self, o: Ordering) -> i32 {
+            super::point(name("atomic.load", "atomic.load.not_seqcst", o));
+            self.0.load(o)
+        }
+        pub fn store(&self, v: i32, o: Ordering) {
+            super::point(name("atomic.store", "atomic.store.not_seqcst", o));
+            self.0.store(v, o)
+        }
+        pub fn compare_exchange(&self, cur: i32, new: i32, s: Ordering, f: Ordering) -> Result<i32, i32> {
+            super::point(name2(
+                "atomic.compare_exchange",
+                "atomic.compare_exchange.not_seqcst",
+                s,
+                f,
+            ));
+            self.0.compare_exchange(cur, new, s, f)
+        }
+        pub fn compare_exchange_weak(&self, cur: i32, new: i32, s: Ordering, f: Ordering) -> Result<i32, i32> {
+            super::point(name2(
+                "atomic.compare_exchange_weak",
+                "atomic.compare_exchange_weak.not_seqcst",
+                s,
+                f,
+            ));
+            self.0.compare_exchange_weak(cur, new, s, f)
+        }
+        fetch_op!(swap, "atomic.swap", "atomic.swap.not_seqcst");
+        fetch_op!(fetch_add, "atomic.fetch_add", "atomic.fetch_add.not_seqcst");
+        fetch_op!(fetch_sub, "atomic.fetch_sub", "atomic.fetch_sub.not_seqcst");
+        fetch_op!(fetch_and, "atomic.fetch_and", "atomic.fetch_and.not_seqcst");
+        fetch_op!(fetch_nand, "atomic.fetch_nand", "atomic.fetch_nand.not_seqcst");
+        fetch_op!(fetch_or, "atomic.fetch_or", "atomic.fetch_or.not_seqcst");
+        fetch_op!(fetch_xor, "atomic.fetch_xor", "atomic.fetch_xor.not_seqcst");
+        fetch_op!(fetch_max, "atomic.fetch_max", "atomic.fetch_max.not_seqcst");
+        fetch_op!(fetch_min, "atomic.fetch_min", "atomic.fetch_min.not_seqcst");
+        /// a compare-exchange loop: every iteration is a load point and a compare-exchange point
+        pub fn fetch_update<F: FnMut(i32) -> Option<i32>>(
+            &self,
+            set: Ordering,
+            fetch: Ordering,
+            mut f: F,
+        ) -> Result<i32, i32> {
+            let mut prev = self.load(fetch);
+            while let Some(next) = f(prev) {
+                match self.compare_exchange_weak(prev, next, set, fetch) {
+                    x @ Ok(_) => return x,
+                    Err(p) => prev = p,
+                }
+            }
+            Err(prev)
+        }
+    }
+}
+
+/// Stand-in for the parts of `std` that unixfd.rs names. Imported there as `std` (under the
+/// feature only), so the existing `use std::sync::atomic::AtomicI32;` line resolves to
+/// [`atomic_shim::AtomicI32`] while everything else is the real thing.
+pub mod std_shim {
+    pub use ::std::{fmt, hash, io, os, thread};
+    pub mod sync {
+        pub use ::std::sync::{Arc, Barrier, Mutex};
+        pub mod atomic {
+            pub use super::super::super::atomic_shim::AtomicI32;
+            pub use ::std::sync::atomic::Ordering;
+        }
+    }
+}
